@@ -99,7 +99,19 @@ func runHealCase(c *checkCtx, cs healCase, can *canary) (res healResult) {
 	smClosed := false
 	defer func() {
 		if !smClosed {
-			sm.Close()
+			// bounded: a manager whose watchers never leave (e.g. stuck in hot-restart state) must not wedge the check
+			done := make(chan struct{})
+			go func() { sm.Close(); close(done) }()
+			select {
+			case <-done:
+			case <-time.After(20 * time.Second):
+				if can.healthy(300*time.Millisecond) && len(res.viol) < 6 {
+					sm.RLock()
+					st := sm.state
+					sm.RUnlock()
+					res.viol = append(res.viol, fmt.Sprintf("SessionManager.Close did not return within 20 s at the end of scenario %s (manager state %d)", cs.Scenario, st))
+				}
+			}
 		}
 		fenceN(2)
 	}()
